@@ -190,6 +190,45 @@ func scripts() map[string]Script {
 				blk(6*time.Second, fee),
 			}
 		},
+		// validator-removed: alliance delegations on a validator on which the module holds no stake (zero-weight
+		// asset, asset still in warm-up); its operator removes the whole self-delegation, the validator is jailed,
+		// unbonds and x/staking removes it while the alliance delegations still exist. Afterwards the delegators
+		// claim, undelegate part, redelegate away, and another validator is slashed
+		"validator-removed": func(g *Gen, c *Config) []Step {
+			c.Assets = []AssetSpec{
+				{Denom: "aaa", Weight: "0", WMin: "0", WMax: "10", TakeRate: "0.001", StartDelay: -int64(time.Hour), Mag: "1000000"},
+				{Denom: "bbb", Weight: "1", WMin: "0", WMax: "10", TakeRate: "0", StartDelay: int64(100 * time.Hour), Mag: "1000000"},
+				{Denom: "ibc/ccc", Weight: "0.5", WMin: "0", WMax: "10", TakeRate: "0", StartDelay: -int64(time.Hour), Mag: "1000000"},
+			}
+			c.Fund = "1000000000"
+			c.UnbondingNs = int64(time.Hour)
+			c.TakeIntervalNs = int64(10 * time.Minute)
+			fee := "2000000stake"
+			return []Step{
+				{K: "delegate", A: 0, V: 1, Den: "aaa", Amt: "1000000"},
+				{K: "delegate", A: 1, V: 1, Den: "bbb", Amt: "333333"},
+				{K: "delegate", A: 1, V: 2, Den: "aaa", Amt: "2000000"},
+				{K: "delegate", A: 2, V: 2, Den: "ibc/ccc", Amt: "500000"},
+				blk(6*time.Second, fee),
+				blk(6*time.Second, fee),
+				{K: "oper_exit", V: 1},
+				blk(6*time.Second, fee),
+				blk(6*time.Second, fee),
+				blk(time.Hour, fee),
+				blk(6*time.Second, fee),
+				blk(6*time.Second, fee),
+				{K: "claim", A: 0, V: 1, Den: "aaa"},
+				{K: "undelegate", A: 0, V: 1, Den: "aaa", Amt: "1000"},
+				{K: "redelegate", A: 1, V: 1, W: 2, Den: "bbb", Amt: "1000"},
+				{K: "delegate", A: 3, V: 1, Den: "aaa", Amt: "5"},
+				blk(6*time.Second, fee),
+				{K: "block", Block: &BlockSpec{DtNs: int64(6 * time.Second), Fees: fee, Evidence: []Evidence{{Val: 2, HeightBack: 1}}}},
+				blk(11*time.Minute, fee),
+				{K: "undelegate", A: 0, V: 1, Den: "aaa", Amt: "bal"},
+				blk(time.Hour, fee),
+				blk(6*time.Second, fee),
+			}
+		},
 		// drain-and-refill: two assets on the same validators, non-integer share ratios after a slash, every
 		// delegator exits one asset completely (through different validators, leaving rounding dust behind),
 		// the asset's staked total returns to zero, then it is staked again
@@ -361,11 +400,11 @@ func checkDefs() map[string]*CheckDef {
 		},
 		{
 			Prop: "C03",
-			Scripts: []string{"drain-refill", "drain-exact", "drain-slashed", "drain-slashed-2"},
+			Scripts: []string{"drain-refill", "drain-exact", "drain-slashed", "drain-slashed-2", "validator-removed"},
 			ProbeEvery: 3,
 			Runs: []ProfRun{{"core", 64, 1200}, {"extreme", 48, 900}},
 			Mons: func(r *Runner) []Monitor { return []Monitor{NewMonC03(r)} },
-			Required: []string{"C03.slash", "C03.take-rate", "C03.tx.undelegate", "C03.tx.redelegate"},
+			Required: []string{"C03.slash", "C03.take-rate", "C03.tx.undelegate", "C03.tx.redelegate", "C03.validator-removed-with-delegations"},
 			Rule: "seeded random histories (core/extreme); after every step the share sums are recomputed from an independent decoder of the raw module store and compared exactly with the recorded totals, negatives and reset-on-drain are checked, and the module's registered invariants plus all SDK invariants (crisis) run every block; a situation class = step kind x slash-fraction class x drained-asset/take-rate situations",
 			Assumptions: commonAssumptions,
 		},
@@ -520,10 +559,11 @@ func valueDefs() []*CheckDef {
 		},
 		{
 			Prop: "C05",
+			Scripts: []string{"validator-removed"},
 			Runs: []ProfRun{{"core", 32, 600}, {"queue", 16, 300}, {"extreme", 24, 450}},
 			Mons: func(r *Runner) []Monitor { return []Monitor{NewMonC12(r), NewMonC05(r)} },
 			ProbeEvery: 4,
-			Required: []string{"C05.state/slashes0", "C05.state/slashes1", "C05.state/slashes3"},
+			Required: []string{"C05.state/slashes0", "C05.state/slashes1", "C05.state/slashes3", "C05.validator-removed"},
 			Rule: "after every k-th step of seeded histories (slashes of every fraction up to 100%, take-rate deductions, jailed/unbonded validators, warm-up) probe transactions on discarded branches: delegate 1 unit and a large amount of every asset to every validator, and for every position with a positive reported balance claim then undelegate the full reported balance; each must succeed; failures are matched against the recorded mechanisms (zero-value-validator, pool-short, precision-18dec) and are violations otherwise; a situation class = (slashes so far, jailed validators, number of positions)",
 			Assumptions: commonAssumptions,
 		},
@@ -592,6 +632,7 @@ func lateDefs() []*CheckDef {
 		},
 		{
 			Prop: "C20",
+			Scripts: []string{"validator-removed"},
 			Runs: []ProfRun{{"queue", 48, 900}, {"core", 32, 600}, {"extreme", 8, 150}},
 			Mons: func(r *Runner) []Monitor { return []Monitor{NewMonC20(r)} },
 			ProbeEvery: 3,
